@@ -20,12 +20,12 @@ RULE = ("figure documents with 1..6 generated image files (valid PNG signature+I
 ASSUMPTIONS = ["EMF carries no pixel size the statement could pin: only picw/pich > 0 is required",
                "display size: within 1 twip of inches x 1440"]
 DECIDING = ["docs_parsed", "pictures_compared", "payload_bytes_compared", "caption_pages_checked"]
-FLOOR = {"quick": 1200, "thorough": 20000}
+FLOOR = {"quick": 2000, "thorough": 20000}
 BLIP = {"png": "pngblip", "jpeg": "jpegblip", "emf": "emfblip"}
 
 
 def plan(tier, seed):
-    per = 100 if tier == "quick" else 1600
+    per = 300 if tier == "quick" else 2500
     return [{"n": per} for _ in range(16)]
 
 
